@@ -158,7 +158,7 @@ Definition wf_world (w : world) : Prop :=
 
 Definition closure (w : world) (top q : node) : Prop := q = top \/ reach_plus w top q.
 
-(* the signature of the open finding D16, negated *)
+(* the signature of D16 (pinned tree), negated: no hypothesis of any theorem about the repaired code *)
 Definition one_version_per_name (w : world) (top : node) : Prop :=
   forall p q, closure w top p -> closure w top q -> nname p = nname q -> p = q.
 
@@ -175,18 +175,12 @@ Proof.
   - eapply reachP_trans_step; [exact R | apply step_is_stepP, S].
 Qed.
 
-Lemma pin_of_In pins n v : In (n, v) pins -> exists v', pin_of pins n = Some v' /\ In (n, v') pins.
+Lemma pin_of_Some pins n v : pin_of pins n = Some v -> In (n, v) pins.
 Proof.
-  induction pins as [|[k u] r IH]; simpl; [tauto|].
-  intros [Q | I].
-  - inversion Q. subst. destruct (pin_of r n) as [x|] eqn:E.
-    + exists x. split; [reflexivity|]. right.
-      clear - E. revert E. induction r as [|[k u] r IH]; simpl; [discriminate|].
-      destruct (pin_of r n) as [y|] eqn:F.
-      * intros Q. inversion Q. subst. right. apply IH. reflexivity.
-      * destruct (str_eqb n k) eqn:G; [|discriminate]. apply str_eqb_eq in G. subst. intros Q. inversion Q. auto.
-    + rewrite str_eqb_refl. exists v. auto.
-  - destruct (IH I) as [v' [E I']]. rewrite E. exists v'. auto.
+  induction pins as [|[k u] r IH]; simpl; [discriminate|].
+  destruct (pin_of r n) as [x|] eqn:E.
+  - intros Q. inversion Q. subst. right. apply IH. reflexivity.
+  - destruct (str_eqb n k) eqn:G; [|discriminate]. apply str_eqb_eq in G. subst. intros Q. inversion Q. auto.
 Qed.
 
 Lemma node_table_inv w p es : node_table w p = Some es -> exists n v, p = (n, Some v, true) /\ table_of w n v = Some es.
@@ -198,36 +192,44 @@ Qed.
 Lemma own_target_name e : nname (own_target e) = ename e.
 Proof. unfold own_target. destruct (eres e); reflexivity. Qed.
 
-(* under the three hypotheses the versions pinned for the second walk are the versions the lines denote anyway *)
+(* a name pinned by the repaired code is the name of exactly one listed product, which is not the top product *)
+Lemma pins_fixed_In top dp n v :
+  In (n, v) (pins_fixed top dp) ->
+  n <> nname top /\ exists x, In x dp /\ nname (enode x) = n /\ nver (enode x) = v /\
+                             forall y, In y dp -> nname (enode y) = n -> enode y = enode x.
+Proof.
+  unfold pins_fixed, pins_pinned. intros H. apply in_map_iff in H as [x [Q H]]. inversion Q. subst. clear Q.
+  apply filter_In in H as [Ix Hs]. unfold sole_of_name in Hs. apply andb_true_iff in Hs as [H1 H2].
+  split.
+  - apply negb_true_iff in H1. intros Q. rewrite Q, str_eqb_refl in H1. discriminate.
+  - exists x. split; [exact Ix|]. split; [reflexivity|]. split; [reflexivity|].
+    intros y Iy Q. rewrite forallb_forall in H2. specialize (H2 y Iy). rewrite Q, str_eqb_refl in H2.
+    simpl in H2. apply node_eqb_eq, H2.
+Qed.
+
+(* with resolved edges that agree with the declarations, the versions the repaired second walk pins are the
+   versions the lines denote anyway: no hypothesis on the closure (two versions of a name, cycles) *)
 Lemma pins_agree w top dp :
-  wf_world w -> one_version_per_name w top -> acyclic_from w top ->
+  wf_world w ->
   (forall q, In q (map enode dp) <-> q <> top /\ reach_plus w top q) ->
   forall p es e, closure w top p -> node_table w p = Some es -> In e es ->
-    resolve w (map (fun x => (nname (enode x), nver (enode x))) dp) e = own_target e.
+    resolve w (pins_fixed top dp) e = own_target e.
 Proof.
-  intros Hwf Hone Hac Hdp p es e Cp Tp Ie.
-  set (pins := map (fun x => (nname (enode x), nver (enode x))) dp).
+  intros Hwf Hdp p es e Cp Tp Ie.
+  set (pins := pins_fixed top dp).
   set (t := own_target e).
   assert (St : step w p t) by (exists es, e; auto).
   assert (Ct : closure w top t) by (eapply closure_step; eauto).
+  unfold resolve. fold pins. destruct (pin_of pins (ename e)) as [pv|] eqn:Epin; [|reflexivity].
+  apply pin_of_Some in Epin. unfold pins in Epin. apply pins_fixed_In in Epin as [Nn [x [Ix [Nx [Vx Hsole]]]]].
   assert (Nt : t <> top).
-  { intros Q. destruct Ct as [_ | R].
-    - destruct Cp as [-> | Rp].
-      + apply (Hac top (or_introl eq_refl)). rewrite Q in St. apply rp_one, step_is_stepP, St.
-      + apply (Hac top (or_introl eq_refl)). rewrite Q in St. eapply reachP_trans_step; [exact Rp | apply step_is_stepP, St].
-    - rewrite Q in R. apply (Hac top (or_introl eq_refl)), R. }
+  { intros Q. apply Nn. rewrite <- Q. unfold t. symmetry. apply own_target_name. }
   assert (Rt : reach_plus w top t) by (destruct Ct; [contradiction | assumption]).
-  assert (Ipin : In (ename e, nver t) pins).
-  { unfold pins. apply in_map_iff. assert (Idp : In t (map enode dp)) by (apply Hdp; auto).
-    apply in_map_iff in Idp as [x [Ex Ix]]. exists x. rewrite Ex. unfold t at 1. rewrite own_target_name. auto. }
-  destruct (pin_of_In _ _ _ Ipin) as [v' [Epin Iv']].
-  assert (Ev : v' = nver t).
-  { unfold pins in Iv'. apply in_map_iff in Iv' as [x [Qx Ix]]. inversion Qx as [[Q1 Q2]].
-    assert (Cq : closure w top (enode x)).
-    { right. apply (Hdp (enode x)). apply in_map, Ix. }
-    assert (enode x = t). { apply Hone; auto. rewrite Q1. unfold t. symmetry. apply own_target_name. }
-    congruence. }
-  subst v'. unfold resolve. fold pins. rewrite Epin.
+  assert (Idp : In t (map enode dp)) by (apply Hdp; auto).
+  apply in_map_iff in Idp as [y [Ey Iy]].
+  assert (Ext : enode x = t).
+  { rewrite <- (Hsole y Iy); [exact Ey|]. rewrite Ey. unfold t. apply own_target_name. }
+  rewrite <- Vx, Ext. clear Vx Ext Hsole Ix Nx x Ey Iy y.
   destruct (node_table_inv _ _ _ Tp) as [n [v [-> Tn]]]. destruct (Hwf n v es e Tn Ie) as [W1 W2].
   unfold t, own_target in *. destruct (eres e) as [r|] eqn:Er; unfold nver; simpl.
   - rewrite (W1 r eq_refl). reflexivity.
@@ -335,54 +337,6 @@ Proof.
     intros [|i] x; simpl; [apply H | apply H2].
 Qed.
 
-(* ------------------------------------------------------------ depths by name *)
-Lemma fold_aset_other (l : list node) (v : nat) name : forall m,
-  ~ In name (map nname l) ->
-  alookup name (fold_left (fun m p => aset (nname p) v m) l m) = alookup name m.
-Proof.
-  induction l as [|p l IH]; intros m H; simpl; [reflexivity|].
-  rewrite IH by (simpl in H; tauto). apply alookup_aset_other. simpl in H. intros Q. apply H. left. congruence.
-Qed.
-
-Lemma fold_aset_in_name (l : list node) (v : nat) name : forall m,
-  In name (map nname l) -> alookup name (fold_left (fun m p => aset (nname p) v m) l m) = Some v.
-Proof.
-  induction l as [|p l IH]; intros m H; simpl; [destruct H|].
-  destruct (in_dec str_eq_dec name (map nname l)) as [J | J]; [apply IH, J|].
-  destruct H as [<- | H]; [|contradiction].
-  rewrite fold_aset_other by exact J. apply alookup_aset_same.
-Qed.
-
-Lemma fold_aset_in (l : list node) (v : nat) x m :
-  In x l -> alookup (nname x) (fold_left (fun m p => aset (nname p) v m) l m) = Some v.
-Proof. intros H. apply fold_aset_in_name. apply in_map, H. Qed.
-
-Lemma dbn_other NL name : forall i nl m,
-  (forall j y, In y (nth j NL []) -> nname y <> name) ->
-  alookup name (depth_by_name NL i nl m) = alookup name m.
-Proof.
-  induction NL as [|l r IH]; intros i nl m H; simpl; [reflexivity|].
-  rewrite IH.
-  - apply fold_aset_other. intros J. apply in_map_iff in J as [y [Ey Iy]]. apply (H 0 y); auto.
-  - intros j y Iy. apply (H (S j) y). exact Iy.
-Qed.
-
-Lemma dbn_spec NL x : forall i nl m j,
-  (forall j' y, In y (nth j' NL []) -> nname y = nname x -> j' = j) ->
-  In x (nth j NL []) ->
-  alookup (nname x) (depth_by_name NL i nl m) = Some (nl - (i + j) - 1).
-Proof.
-  induction NL as [|l r IH]; intros i nl m j Hu Hx; [destruct j; destruct Hx|].
-  simpl. destruct j as [|j]; simpl in Hx.
-  - rewrite dbn_other.
-    + rewrite (fold_aset_in l _ x m Hx). f_equal. lia.
-    + intros j' y Iy Q. specialize (Hu (S j') y Iy Q). discriminate.
-  - rewrite (IH (S i) nl _ j).
-    + f_equal. lia.
-    + intros j' y Iy Q. specialize (Hu (S j') y Iy Q). lia.
-    + exact Hx.
-Qed.
-
 (* ------------------------------------------------------------ entries of the final listing *)
 Lemma keep_last_sub l x : In x (keep_last l) -> In x l.
 Proof.
@@ -390,116 +344,19 @@ Proof.
   destruct (mem_node (enode y) (map enode l)); [auto|]. intros [H | H]; auto.
 Qed.
 
-Lemma topo_finish_entry NL dp x :
-  In x (topo_finish NL dp) ->
+Lemma topo_finish_entry fx NL dp x :
+  In x (topo_finish fx NL dp) ->
   exists y, In y dp /\ enode x = enode y /\
-            edepth x = edepth (relabel (depth_by_name NL 0 (S (length NL)) []) y).
+            edepth x = edepth (relabel (if fx then depth_by_node NL 0 (S (length NL)) [] else [])
+                                       (depth_by_name NL 0 (S (length NL)) []) y).
 Proof.
   unfold topo_finish, dedup. intros H. apply in_map_iff in H as [z [<- H]]. apply keep_last_sub in H.
   rewrite entry_sort_In in H. apply in_map_iff in H as [y [<- H]].
   exists y. split; [exact H|]. split; [apply relabel_node | reflexivity].
 Qed.
 
-(* ------------------------------------------------------------ the build order *)
 Lemma reach_first_table w pins p q : reachP w pins p q -> exists es, node_table w p = Some es.
 Proof. intros [p' q' [es [e [T _]]] | p' q' r [es [e [T _]]] _]; eauto. Qed.
-
-Lemma singleton_of (cs : list comp) (g : graph) c n :
-  (forall c, In c cs -> exists x, c = [x] /\ In x (gkeys g)) -> In c cs -> In n c -> c = [n].
-Proof. intros H Ic In_. destruct (H c Ic) as [x [-> _]]. destruct In_ as [-> | []]. reflexivity. Qed.
-
-Theorem build_order w top fuel l :
-  length w < fuel -> wf_world w -> one_version_per_name w top -> acyclic_from w top ->
-  dependent_products fuel w top true = Ok l ->
-  forall x y, In x l -> In y l -> step w (enode x) (enode y) -> edepth x < edepth y.
-Proof.
-  intros Hf Hwf Hone Hac D x y Ix Iy Sxy.
-  unfold dependent_products, dependent_products_with in D.
-  destruct (walk_top_spec w [] top fuel Hf) as [out1 [st1 [E1 Hout1]]]. rewrite E1 in D. cbn [negb] in D.
-  cbv zeta in D.
-  set (dp := drop_top top out1) in *.
-  set (pins := map (fun x => (nname (enode x), nver (enode x))) dp) in *.
-  assert (Hdp : forall q, In q (map enode dp) <-> q <> top /\ reach_plus w top q).
-  { intros q. unfold dp. rewrite drop_top_nodes, Hout1. reflexivity. }
-  destruct (walk_top fuel w pins top) as [[out2 st2]|] eqn:E2; [|discriminate].
-  destruct (topo_layers_with node_cmp false (pd st2)) as [NL|] eqn:ET; [|discriminate].
-  inversion D. subst l. clear D.
-  set (td := depth_by_name NL 0 (S (length NL)) []).
-  destruct (topo_finish_entry NL dp x Ix) as [x0 [Ix0 [Ex Dx]]].
-  destruct (topo_finish_entry NL dp y Iy) as [y0 [Iy0 [Ey Dy]]].
-  fold td in Dx, Dy.
-  assert (Rx : enode x <> top /\ reach_plus w top (enode x)) by (apply Hdp; rewrite Ex; apply in_map, Ix0).
-  assert (Ry : enode y <> top /\ reach_plus w top (enode y)) by (apply Hdp; rewrite Ey; apply in_map, Iy0).
-  destruct (reach_first_table _ _ _ _ (proj2 Rx)) as [es Ttop].
-  destruct (walk_top_full w pins top fuel es Hf Ttop) as [out2' [st2' [E2' [Hout2 [Hg [Hvis [Hreal Hkeys]]]]]]].
-  rewrite E2 in E2'. inversion E2'. subst out2' st2'. clear E2'.
-  pose proof (pins_agree w top dp Hwf Hone Hac Hdp) as Hag. fold pins in Hag.
-  destruct (reach_agree w pins top Hag) as [Hs Hr].
-  assert (Ctop : closure w top top) by (left; reflexivity).
-  set (G0 := pd st2) in *. set (G := prepare G0).
-  (* who has edges in G0 *)
-  assert (Hsrc : forall a, a = top \/ In a (vis st2) -> closure w top a).
-  { intros a [-> | H]; [exact Ctop|]. right. apply Hr; [exact Ctop|]. apply Hvis, H. }
-  assert (Hsrc' : forall a b, closure w top a -> step w a b -> a = top \/ In a (vis st2)).
-  { intros a b [-> | R] S; [auto|]. right. apply Hreal.
-    - apply Hr; [exact Ctop | exact R].
-    - destruct S as [es_a [e [T _]]]. eapply node_table_real; eauto. }
-  assert (g1 : forall a b, gedge G a b -> closure w top a /\ step w a b /\ a <> b).
-  { intros a b H. apply prepare_gedge in H as [H Ne]. apply Hg in H as [Ha Hst].
-    pose proof (Hsrc a Ha) as Ca. split; [exact Ca|]. split; [apply Hs; auto | exact Ne]. }
-  assert (g2 : forall a b, closure w top a -> step w a b -> a <> b -> gedge G a b).
-  { intros a b Ca S Ne. apply prepare_gedge. split; [|exact Ne]. apply Hg. split; [eapply Hsrc'; eauto|].
-    apply Hs; auto. }
-  assert (g3 : forall n, In n (gkeys G) -> closure w top n).
-  { intros n H. apply prepare_keys in H as [H | [k H]].
-    - apply Hsrc, Hkeys, H.
-    - apply Hg in H as [Hk Hst]. pose proof (Hsrc k Hk) as Ck. eapply closure_step; [exact Ck|]. apply Hs; auto. }
-  assert (g4 : forall n, reach_plus w top n -> In n (gkeys G)).
-  { intros n R. destruct (reach_plus_last w top n R) as [k [Ck Sk]]. apply prepare_keys. right. exists k.
-    apply Hg. split; [eapply Hsrc'; eauto | apply Hs; auto]. }
-  assert (Hpath : forall a b, gpath G a b -> closure w top a -> reach_plus w a b).
-  { induction 1 as [a b E | a b c E _ IH]; intros Ca.
-    - destruct (g1 a b E) as [_ [S _]]. apply rp_one, step_is_stepP, S.
-    - destruct (g1 a b E) as [_ [S _]]. eapply rp_more; [apply step_is_stepP, S|]. apply IH. eapply closure_step; eauto. }
-  assert (Gacyc : acyclic G).
-  { intros a P. assert (Ca : closure w top a).
-    { inversion P as [a' b' E | a' b' c' E P']; subst; apply (proj1 (g1 _ _ E)). }
-    apply (Hac a Ca). apply Hpath; auto. }
-  destruct (topo_layers_with_inv _ _ _ _ ET) as [cs [L [Escc [Elay Esort]]]]. fold G in Escc, Elay.
-  destruct (scc_dag G cs Gacyc (prepare_closed G0) Escc) as [Hsing Hcover].
-  destruct (sort_layers_spec L NL Esort) as [Hlen Hmem].
-  (* where a node of G sits, and the depth its name gets *)
-  assert (Hnode : forall n, In n (gkeys G) ->
-            lidx L [n] < length NL /\ alookup (nname n) td = Some (length NL - lidx L [n])).
-  { intros n Kn. set (j := lidx L [n]).
-    assert (Ij : In [n] (nth j L [])) by (apply (comp_layers_yields _ _ _ _ Elay), Hcover, Kn).
-    assert (Jlt : j < length L).
-    { destruct (Nat.lt_ge_cases j (length L)) as [H | H]; [exact H|]. rewrite nth_overflow in Ij by exact H. destruct Ij. }
-    split; [lia|].
-    assert (Hdb : alookup (nname n) td = Some (S (length NL) - (0 + j) - 1)).
-    { apply dbn_spec.
-      - intros j' z Iz Qz. apply Hmem in Iz. apply in_concat in Iz as [c [Ic Izc]].
-        assert (Ics : In c cs) by (eapply comp_layers_elems; eauto).
-        destruct (Hsing c Ics) as [z' [-> Kz]]. destruct Izc as [<- | []].
-        assert (z' = n) by (apply Hone; auto). subst z'.
-        eapply comp_layers_unique; eauto.
-      - apply Hmem. apply in_concat. exists [n]. split; [exact Ij | left; reflexivity]. }
-    rewrite Hdb. f_equal. lia. }
-  assert (Kx : In (enode x) (gkeys G)) by (apply g4, Rx).
-  assert (Ky : In (enode y) (gkeys G)) by (apply g4, Ry).
-  destruct (Hnode _ Kx) as [Lx Tx]. destruct (Hnode _ Ky) as [Ly Ty].
-  assert (Cx : closure w top (enode x)) by (right; apply Rx).
-  assert (Nxy : enode x <> enode y).
-  { intros Q. apply (Hac _ Cx). rewrite <- Q in Sxy. apply rp_one, step_is_stepP, Sxy. }
-  pose proof (g2 _ _ Cx Sxy Nxy) as [ss [I1 I2]].
-  destruct (comp_layers_order _ _ _ _ Elay _ _ _ I1 I2) as [ca [cb [Ha [Hb Hord]]]].
-  apply comp_of_In in Ha as [Ha1 Ha2]. apply comp_of_In in Hb as [Hb1 Hb2].
-  rewrite (singleton_of cs G ca _ Hsing Ha1 Ha2) in Hord.
-  rewrite (singleton_of cs G cb _ Hsing Hb1 Hb2) in Hord.
-  destruct Hord as [Q | Hord]; [inversion Q; contradiction|].
-  unfold relabel in Dx, Dy. rewrite <- Ex in Dx. rewrite <- Ey in Dy. rewrite Tx in Dx. rewrite Ty in Dy.
-  unfold edepth in Dx at 2. unfold edepth in Dy at 2. simpl in Dx, Dy. lia.
-Qed.
 
 (* ------------------------------------------------------------ the listing is sorted by depth *)
 From Coq Require Import Sorted.
@@ -570,13 +427,13 @@ Proof.
   rewrite Forall_forall in Hall. unfold depth_le. rewrite !Hf. apply Hall, Hz0.
 Qed.
 
-Lemma topo_finish_sorted NL dp : StronglySorted depth_le (topo_finish NL dp).
+Lemma topo_finish_sorted fx NL dp : StronglySorted depth_le (topo_finish fx NL dp).
 Proof.
   unfold topo_finish, dedup. apply map_sorted; [reflexivity|]. apply keep_last_sorted, entry_sort_sorted.
 Qed.
 
-Lemma listing_sorted cmp fuel w top l :
-  dependent_products_with cmp fuel w top true = Ok l -> StronglySorted depth_le l.
+Lemma listing_sorted fx cmp fuel w top l :
+  dependent_products_with fx cmp fuel w top true = Ok l -> StronglySorted depth_le l.
 Proof.
   unfold dependent_products_with. destruct (walk_top fuel w [] top) as [[o1 s1]|]; [|discriminate].
   cbn [negb]. cbv zeta. destruct (walk_top fuel w _ top) as [[o2 s2]|]; [|discriminate].
@@ -609,21 +466,18 @@ Definition wf_world_b (w : world) : bool :=
 
 Lemma hyps_by_computation fuel w top l :
   length w < fuel -> closure_list fuel w top = Some l ->
-  one_version_b l = true -> acyclic_b fuel w l = true -> wf_world_b w = true ->
-  wf_world w /\ one_version_per_name w top /\ acyclic_from w top.
+  acyclic_b fuel w l = true -> wf_world_b w = true ->
+  wf_world w /\ acyclic_from w top.
 Proof.
-  intros Hf Hc H1 H2 H3. unfold closure_list in Hc.
+  intros Hf Hc H2 H3. unfold closure_list in Hc.
   destruct (walk_top_spec w [] top fuel Hf) as [out [st [E Hout]]]. rewrite E in Hc. inversion Hc. subst l. clear Hc.
   assert (Hcl : forall q, closure w top q -> In q (top :: map enode out)).
   { intros q [-> | R]; [left; reflexivity | right; apply Hout, R]. }
-  split; [|split].
+  split.
   - intros n v es e T Ie. apply table_of_In in T. unfold wf_world_b in H3. rewrite forallb_forall in H3.
     specialize (H3 _ T). simpl in H3. rewrite forallb_forall in H3. specialize (H3 e Ie). split.
     + intros r Er. rewrite Er in H3. exact H3.
     + intros v' Er Ev. rewrite Er, Ev in H3. apply negb_true_iff, H3.
-  - intros p q Cp Cq Hn. unfold one_version_b in H1. rewrite forallb_forall in H1.
-    specialize (H1 p (Hcl p Cp)). rewrite forallb_forall in H1. specialize (H1 q (Hcl q Cq)).
-    rewrite Hn, str_eqb_refl in H1. simpl in H1. apply node_eqb_eq, H1.
   - intros p Cp R. unfold acyclic_b in H2. rewrite forallb_forall in H2. specialize (H2 p (Hcl p Cp)).
     destruct (walk_top_spec w [] p fuel Hf) as [outp [stp [Ep Hp]]]. rewrite Ep in H2.
     apply negb_true_iff, mem_node_not_In in H2. apply H2, Hp, R.
